@@ -95,6 +95,8 @@ def run_shard(shard, tier, seed, wd, res):
         pts = list(so.values()) + [G.order_rl_point(g, rng, min(so)), c.random_point(rng)]
         ks = [0, 1, 2, 3, 11, 13, R - 1, R, R + 1, (1 << 256) - 1, (1 << 255), rng.getrandbits(256), rng.getrandbits(255), rng.getrandbits(64)]
         for P in pts:
+            for lam in G.special_lambdas(g, rng):
+                s.op(gp + ".mul", V.proj(g, *G.rescale(g, P, lam)), V.RR(rng.getrandbits(256)))
             for k in ks:
                 s.op(gp + ".mul", V.proj(g, *G.rescale(g, P, G.rand_fe(g, rng))), V.RR(k))
                 s.op(gp + ".amul", V.aff(g, P), V.RR(k))
